@@ -18,6 +18,37 @@ every execution with the reference geometry of the physical sets
     returns it to stopping accuracy (only runs that stopped by their criterion);
 (e) with one of on_algo_eq_constraint / on_algo_ineq_constraint off exactly the
     enabled constraint is required.
+
+History / combination steps (same oracles; nothing beyond the statement is asked).  The statement holds for every call,
+whatever the objects did before, so the workload no longer builds fresh objects for every estimate:
+  * re-use: the estimator objects (one projected-linear estimator per order, one loss-minimisation estimator), one loss
+    object per loss class and one algorithm object per algorithm serve ALL estimates of a case (the library documents
+    that calc_estimate updates the loss and algorithm it is handed), on two cases of three even all cases of the shard
+    (other tomography of the same shape, other data, other number of POVM / measurement-process outcomes);
+  * sibling tomography: a second tomography object of the same type, shape and flag with other testers and the other
+    projection threshold (POVM / measurement-process tomography: in half of the cases another number of outcomes) is
+    estimated with the same estimator / loss / backtracking objects between the calls for the case's own tomography
+    (a cache keyed by class / shape / size would hand one the other's model or projection): its exact data must be
+    recovered, and so must the case's own exact data afterwards;
+  * dataset sequences: loss minimisation is also driven through calc_estimate_sequence with two exact datasets of
+    different objects in one call (loss / algorithm state left by the first dataset; a result aliasing a work array);
+  * second calls: after the sibling and after bystander calls on the tomography object (reset_seed, calc_prob_dists,
+    generate_empi_dists) the projected-linear estimators are asked again through the default path (no timing / history):
+    as many datasets as in the first call in another order (the exact data at another position, one dataset replaced
+    by the one the tomography's own sampler returned), then two single calls in a row with different exact data (a
+    memo keyed by tomography and number of datasets, or a memo of the last call, would answer for other data); at the
+    end of the case one core configuration is estimated again with the very same loss / option / algorithm objects
+    through the default path (no iterate history, no detailed results) and right after it the squared-error recovery
+    run is repeated as the last action;
+  * held results: the result objects of the first projected-linear calls and of the squared-error recovery are read
+    again after everything else (the estimate a caller holds must still be that estimate, to 1e-9 relative, still denote
+    its variables and still be physical);
+  * provenance: testers reached through copy() (half of the cases), the physical start point read back from a library
+    object (generate_from_var(...).to_var()), non-default step options (mu, gamma / r / delta) on feasibility-only runs.
+Keys of verdicts taken in such steps end in ":re-used-object", ":second-call", ":dataset-sequence" or ":result-re-read"
+(in the two long backtracking recovery keys the tag stands after the loss family / the parametrisation tag, because
+replay files are named by the first 120 characters of a key; the relative-entropy recovery and exception keys, which
+name known findings, stay as they are).
 """
 import contextlib
 import io
@@ -37,7 +68,13 @@ RULE = ("tomography instances of 4 types (QST, POVMT, QPT, QMPT) x on_para_eq_co
         "loss minimisation with 3 algorithms x {generic, fast} x {squared error, relative entropy} x weight options x both "
         "orders x constraint-option matrix x default / physical start; a case is distinct by (type, shape, flag, m, "
         "estimator configuration, data class, rounded data) and non-trivial when the linear estimate of the data is not "
-        "physical (the constraint has to act) or the data are exact data of a boundary object")
+        "physical (the constraint has to act) or the data are exact data of a boundary object; history steps: estimator / "
+        "loss / algorithm objects re-used for all estimates of a case (of the shard on 2 cases of 3), a sibling tomography "
+        "(other testers, other projection threshold, for POVMT / QMPT in half of the cases another outcome number) estimated "
+        "in between with the same objects, two-dataset sequences, second calls (same number of datasets in another order, "
+        "consecutive single calls, default no-history path, library-sampled data) after bystander calls on the "
+        "tomography object, held results read again at the end, testers through copy(), start point read back from a "
+        "library object, non-default step options")
 _PGD = "quara/minimization_algorithm/"
 ANCHORS = [
     "quara/protocol/qtomography/standard/projected_linear_estimator.py:ProjectedLinearEstimator.calc_estimate_sequence",
@@ -67,8 +104,11 @@ ASSUMPTIONS = [
     "testers use identity-first orthonormal Hermitian bases (normalised Pauli / Gell-Mann and tensor products); exact "
     "data come from the reference Born rule on operator matrices and are cross-checked against A v + b of the "
     "tomography object (a mismatch is C08's business: the recovery oracles are then not evaluated)",
-    "a fresh loss and a fresh algorithm object per estimate (the projection closure cached on a re-used algorithm "
-    "object is C13's observation, DESIGN section 7 row 16)",
+    "estimator, loss and algorithm objects are re-used across estimates only in the way calc_estimate documents (it "
+    "re-sets the loss and the algorithm it is handed); a loss object is re-used only with tomography objects of the same "
+    "number of variables (the fast losses do not re-read num_var)",
+    "history steps draw from their own random stream (case stream + 1), so the base workload of a case is the one of "
+    "the earlier versions of this check",
     "feasibility after a physical projection that ran into its own iteration limit (projected-linear uses the default "
     "1000) is not promised: such estimates are grey and counted",
 ]
@@ -222,6 +262,12 @@ class Mon:
         self.cur = {}        # state of the estimator call being executed
         self.buf = None      # captured stdout of the running estimator call
         self.phys_starts = []  # var vectors the driver vouches to be physical start points
+        self.hist = ""       # key suffix naming the history step the driver is in ("" = first call on fresh objects)
+        self.last = None     # what the last hooked estimator call returned: {"vars": copies, "judged": [bool]} (for the re-read step)
+
+    def K(self, key):
+        """mechanism key of a verdict taken during a history step"""
+        return key + self.hist
 
     # -- bookkeeping
     def num(self, oracle, err, tp, tf, key=None, info=None):
@@ -283,9 +329,10 @@ class Mon:
     def judge_point(self, who, what, ti, s, eq_on, ineq_on, info, oracle_pref):
         """what: 'estimate' | 'iterate';  who: mechanism prefix of the key"""
         t, flag = ti["t"], ti["flag"]
+        K = self.K
         s = np.asarray(s, dtype=np.float64)
         if s.shape[0] != refopt.n_stack(t, ti["d"], ti["m"]) or not np.all(np.isfinite(s)):
-            self.ctx.truth(f"{oracle_pref}:well-formed", False, key=f"{who}:{ti['tag']}:{what}-not-finite-or-wrong-size", info=info)
+            self.ctx.truth(f"{oracle_pref}:well-formed", False, key=K(f"{who}:{ti['tag']}:{what}-not-finite-or-wrong-size"), info=info)
             return None
         self.ctx.truth(f"{oracle_pref}:well-formed", True)
         eq, ineq = self.viol(ti, s)
@@ -296,18 +343,18 @@ class Mon:
         if flag:
             # the equality constraint is part of the parametrisation: exact whatever the options are
             tp, tf = tol_direct(an)
-            self.num(f"{oracle_pref}:feasible:eq-built-in", eq, tp, tf, key=f"{who}:{tag}:{what}-violates-built-in-eq", info=info)
+            self.num(f"{oracle_pref}:feasible:eq-built-in", eq, tp, tf, key=K(f"{who}:{tag}:{what}-violates-built-in-eq"), info=info)
         elif eq_on:
             tp, tf = tol(ti["eps"], an) if both else tol_direct(an)
             name = f"{oracle_pref}:feasible:eq" if both else "options:eq-only:eq-holds"
-            self.num(name, eq, tp, tf, key=f"{who}:{tag}:opts={opts_class(eq_on, ineq_on)}:{what}-violates-eq", info=info)
+            self.num(name, eq, tp, tf, key=K(f"{who}:{tag}:opts={opts_class(eq_on, ineq_on)}:{what}-violates-eq"), info=info)
         if ineq_on:
             if both:
                 tp, tf = tol(ti["eps"], an)
-                self.num(f"{oracle_pref}:feasible:ineq", ineq, tp, tf, key=f"{who}:{tag}:opts=eq+ineq:{what}-violates-ineq", info=info)
+                self.num(f"{oracle_pref}:feasible:ineq", ineq, tp, tf, key=K(f"{who}:{tag}:opts=eq+ineq:{what}-violates-ineq"), info=info)
             elif not flag:
                 tp, tf = tol_direct(an)
-                self.num("options:ineq-only:ineq-holds", ineq, tp, tf, key=f"{who}:{tag}:opts=ineq-only:{what}-violates-ineq", info=info)
+                self.num("options:ineq-only:ineq-holds", ineq, tp, tf, key=K(f"{who}:{tag}:opts=ineq-only:{what}-violates-ineq"), info=info)
             else:
                 # ineq-only with the equality constraint built in: the projected operator is re-normalised by the
                 # parametrisation afterwards; the statement promises nothing here (recorded, not judged)
@@ -316,6 +363,43 @@ class Mon:
         if not eq_on and not ineq_on:
             self.ctx.count("recorded:opts=none:estimate-unconstrained")
         return eq, ineq
+
+
+    # -- history: a result object the caller still holds is read again after later calls
+    def reread(self, who, who_point, res, first, qt, seq, eq_on=True, ineq_on=True, info=None):
+        """the estimate a caller holds must still be that estimate (first: copies taken when the call returned), still
+        denote its variables (estimated_qoperation_sequence is rebuilt from the template at every access) and still
+        satisfy the constraints"""
+        ti = self.info(qt)
+        tag = ti["tag"]
+        K = self.K
+        info0 = dict(info or {}, tomo=ti["tomo"], tag=tag)
+        try:
+            vs = [np.array(v, dtype=np.float64, copy=True) for v in res.estimated_var_sequence]
+            objs = res.estimated_qoperation_sequence
+        except Exception as ex:  # noqa: BLE001
+            self.ctx.violation(K(f"{who}:{tag}:held-result-cannot-be-read:{type(ex).__name__}"), info0)
+            return
+        if not self.ctx.truth("held-result:one-estimate-per-dataset", len(vs) == len(seq) == len(first["vars"]) == len(objs),
+                              key=K(f"{who}:{tag}:wrong-number-of-estimates"), info=info0):
+            return
+        for k, ds in enumerate(seq):
+            inf = dict(info0, data=self.meta_of(ds)["cls"])
+            v0 = first["vars"][k]
+            an = float(np.linalg.norm(v0))
+            e = float(np.max(np.abs(vs[k] - v0))) / (1 + an) if vs[k].shape == v0.shape else float("inf")
+            if not math.isfinite(e):
+                e = float("inf")
+            self.num("held-result:estimate-unchanged-by-later-calls", e, 1e-12, 1e-9,
+                     key=K(f"{who}:{tag}:estimate-held-by-caller-changed"), info=inf)
+            if not first["judged"][k] or vs[k].shape != (ti["nvar"],) or not np.all(np.isfinite(vs[k])):
+                continue
+            s = self.stack(ti, vs[k])
+            so = gen.stacked(objs[k])
+            e = float(np.max(np.abs(so - s))) / (1 + float(np.linalg.norm(s))) if so.shape == s.shape else float("inf")
+            self.num("estimated_qoperation:denotes-estimated_var", e,
+                     1e-12, 1e-9, key=K(f"{who}:{tag}:estimated_qoperation-differs-from-estimated_var"), info=inf)
+            self.judge_point(who_point, "estimate", ti, so, eq_on, ineq_on, inf, "estimate")
 
 
 def install(ctx):
@@ -330,6 +414,7 @@ def install(ctx):
 
     hs = HookSet(ctx)
     M = Mon(ctx)
+    K = M.K
 
     # ------------------------------------------------ nested observers (no verdicts of their own)
     def post_lin(result, snap, est, qt, seq, *a, **kw):
@@ -363,6 +448,10 @@ def install(ctx):
     def post_ple(result, snap, est, qt, seq, is_computation_time_required=False):
         c = M.cur.get("ple") or {"lin": None, "proj": []}
         M.cur["ple"] = None
+        M.last = None
+        # on the path without iteration history the only sign of a projection that ran into its iteration limit is the
+        # warning it prints (read before the monitor's own projections below can print theirs)
+        warned = M.proj_limit_printed()
         ti = M.info(qt)
         t, d, m, B, flag, tag = ti["t"], ti["d"], ti["m"], ti["B"], ti["flag"], ti["tag"]
         order = est.mode_proj_order
@@ -370,7 +459,7 @@ def install(ctx):
         vs = [np.array(v, dtype=np.float64, copy=True) for v in result.estimated_var_sequence]
         info0 = {"tomo": ti["tomo"], "tag": tag, "order": order, "kappa": ti["kappa"], "n_datasets": len(seq)}
         if not ctx.truth("projected-linear:one-estimate-per-dataset", len(vs) == len(seq),
-                         key=f"{who}:{tag}:wrong-number-of-estimates", info=info0):
+                         key=K(f"{who}:{tag}:wrong-number-of-estimates"), info=info0):
             return
         objs = result.estimated_qoperation_sequence
         lin = c["lin"]
@@ -378,9 +467,10 @@ def install(ctx):
         # the estimator must have run the physical projection with *its* order, once per dataset
         ctx.truth("projected-linear:projection-runs-with-estimator-order",
                   len(projs) == len(seq) and all(p["order"] == order for p in projs),
-                  key=f"{who}:{tag}:projection-not-run-with-estimator-order",
+                  key=K(f"{who}:{tag}:projection-not-run-with-estimator-order"),
                   info=dict(info0, seen=[p["order"] for p in projs][:4]))
         template = qt.generate_empty_estimation_obj_with_setting_info()
+        M.last = {"vars": vs, "judged": [False] * len(seq)}
         for k, ds in enumerate(seq):
             meta = M.meta_of(ds)
             info = dict(info0, data=meta["cls"], position="first" if k == 0 else "later")
@@ -388,8 +478,11 @@ def install(ctx):
             so = gen.stacked(objs[k])
             an = float(np.linalg.norm(s))
             M.num("estimated_qoperation:denotes-estimated_var", float(np.max(np.abs(so - s))) / (1 + an), 1e-12, 1e-9,
-                  key=f"{who}:{tag}:estimated_qoperation-differs-from-estimated_var", info=info)
+                  key=K(f"{who}:{tag}:estimated_qoperation-differs-from-estimated_var"), info=info)
             hit = projs[k]["hit"] if k < len(projs) else None
+            if hit is None and warned:
+                hit = True
+            M.last["judged"][k] = not hit
             if hit:
                 ctx.count("projected-linear:projection-iteration-limit-hit")
                 ctx.skip("estimate:feasible:ineq")
@@ -408,9 +501,9 @@ def install(ctx):
                     pm_var = np.asarray(pm.to_var(), dtype=np.float64)
                     e = float(np.max(np.abs(pm_var - vs[k]))) / (1 + a_norm) if pm_var.shape == vs[k].shape else float("inf")
                     M.num("projected-linear:is-calc_proj_physical-of-linear-estimate", e, 1e-12, 1e-9,
-                          key=f"{who}:{tag}:order={order}:estimate-is-not-calc_proj_physical-of-linear-estimate", info=info)
+                          key=K(f"{who}:{tag}:order={order}:estimate-is-not-calc_proj_physical-of-linear-estimate"), info=info)
                 except Exception as ex:  # noqa: BLE001
-                    ctx.violation(f"{who}:{tag}:monitor-projection-raises:{type(ex).__name__}", info)
+                    ctx.violation(K(f"{who}:{tag}:monitor-projection-raises:{type(ex).__name__}"), info)
                 # (c2) nearest physical point by the reference
                 a_eq, a_ineq = M.viol(ti, a)
                 nontriv = max(a_eq, a_ineq) > 1e-9
@@ -420,24 +513,28 @@ def install(ctx):
                     ctx.skip("projected-linear:nearest-physical-point")
                 elif not nontriv:
                     M.num("projected-linear:nearest-physical-point", float(np.linalg.norm(so - a)), tp, tf,
-                          key=f"{who}:{tag}:order={order}:moves-physical-linear-estimate", info=info)
-                elif refopt.n_stack(t, d, m) <= 300:
-                    xr, its, conv = M.geo_of(ti).dykstra(a, tol=1e-26, max_iter=40000)
-                    if not conv:
-                        ctx.skip("projected-linear:nearest-physical-point")
-                    else:
-                        M.num("projected-linear:nearest-physical-point", float(np.linalg.norm(so - xr)), tp, tf,
-                              key=f"{who}:{tag}:order={order}:estimate-is-not-nearest-physical-point",
-                              info=dict(info, a_norm=a_norm, reference="dykstra"))
+                          key=K(f"{who}:{tag}:order={order}:moves-physical-linear-estimate"), info=info)
                 else:
-                    x, status = refopt.nearest_physical_sdp(t, B, d, m, a)
+                    # the reference's nearest point of this dataset's linear estimate is kept with the dataset (it does not
+                    # depend on the order); it serves again only for the very same point a (the projection is 1-Lipschitz)
+                    memo = meta.get("near_memo")
+                    if memo is not None and memo[0].shape == a.shape and float(np.max(np.abs(memo[0] - a))) <= 1e-13 * (1 + a_norm):
+                        x, refname = memo[1], memo[2]
+                    elif refopt.n_stack(t, d, m) <= 300:
+                        x, its, conv = M.geo_of(ti).dykstra(a, tol=1e-26, max_iter=40000)
+                        x, refname = (x if conv else None), "dykstra"
+                    else:
+                        x, status = refopt.nearest_physical_sdp(t, B, d, m, a)
+                        refname = "sdp"
                     if x is None:
                         ctx.skip("projected-linear:nearest-physical-point")
-                    else:  # the interior-point reference is itself accurate to ~5e-7 relative only (see C05)
-                        M.num("projected-linear:nearest-physical-point", float(np.linalg.norm(so - x)),
-                              tp + 2e-5 * (1 + a_norm), tf + 2e-3 * (1 + a_norm),
-                              key=f"{who}:{tag}:order={order}:estimate-is-not-nearest-physical-point",
-                              info=dict(info, a_norm=a_norm, reference="sdp"))
+                    else:
+                        meta["near_memo"] = (np.array(a, copy=True), x, refname)
+                        # the interior-point reference is itself accurate to ~5e-7 relative only (see C05)
+                        xp, xf = (0.0, 0.0) if refname == "dykstra" else (2e-5 * (1 + a_norm), 2e-3 * (1 + a_norm))
+                        M.num("projected-linear:nearest-physical-point", float(np.linalg.norm(so - x)), tp + xp, tf + xf,
+                              key=K(f"{who}:{tag}:order={order}:estimate-is-not-nearest-physical-point"),
+                              info=dict(info, a_norm=a_norm, reference=refname))
             else:
                 ctx.skip("projected-linear:is-calc_proj_physical-of-linear-estimate")
             # (d) exact data => the object itself
@@ -445,7 +542,7 @@ def install(ctx):
                 kap = max(1.0, ti["kappa"])
                 e = float(np.linalg.norm(so - meta["truth"]))
                 M.num("exact-data:projected-linear-recovers", e, 1e-9 * max(1.0, kap * kap / 100.0), 1e-6 * max(1.0, kap * kap / 100.0),
-                      key=f"{who}:{tag}:order={order}:exact-data-not-recovered:{meta['kind']}", info=info)
+                      key=K(f"{who}:{tag}:order={order}:exact-data-not-recovered:{meta['kind']}"), info=info)
 
     hs.method(ProjectedLinearEstimator, "calc_estimate_sequence", pre=pre_ple, post=post_ple, on_exc=exc_ple)
 
@@ -468,7 +565,7 @@ def install(ctx):
             return
         val = np.asarray(result.value, dtype=np.float64)
         if val.shape != (ti["nvar"],):
-            ctx.truth("optimize:value-shape", False, key=f"{who}:{tag}:value-has-wrong-shape", info=dict(info0, shape=list(val.shape)))
+            ctx.truth("optimize:value-shape", False, key=K(f"{who}:{tag}:value-has-wrong-shape"), info=dict(info0, shape=list(val.shape)))
             return
         r0 = M.judge_point(who, "value", ti, M.stack(ti, val), eq_on, ineq_on, info0, "estimate")
         if r0 is not None and eq_on and ineq_on and not ti["flag"] and an in ("pgdm", "fista") and algorithm_option.mode_proj_order == "ineq_eq":
@@ -481,14 +578,14 @@ def install(ctx):
         xs = result.x
         k = int(result.k)
         ctx.truth("iterates:history-length", len(xs) == k + 1 and len(result.fx) == k + 1 and len(result.error_values) == k,
-                  key=f"{who}:{tag}:history-length-inconsistent-with-k", info=dict(info0, n_x=len(xs)))
+                  key=K(f"{who}:{tag}:history-length-inconsistent-with-k"), info=dict(info0, n_x=len(xs)))
         ctx.count("optimize:iterations", k)
         var_start = algorithm_option.var_start
         if var_start is None:
             o = refopt.var_from_stack(ti["t"], ti["d"], ti["m"], ref_origin(ti["t"], ti["d"], ti["m"]), ti["flag"])
             x0 = np.asarray(xs[0], dtype=np.float64)
             e = float(np.max(np.abs(x0 - o))) if x0.shape == o.shape else float("inf")
-            M.num("iterates:start=origin", e, 1e-12, 1e-9, key=f"{who}:{tag}:default-start-is-not-the-origin-object", info=info0)
+            M.num("iterates:start=origin", e, 1e-12, 1e-9, key=K(f"{who}:{tag}:default-start-is-not-the-origin-object"), info=info0)
         elif not any(v is var_start for v in M.phys_starts):
             ctx.skip("iterates:feasible:eq")  # start point not known to be physical: iterates are not promised feasible
             return
@@ -500,7 +597,7 @@ def install(ctx):
         f_eq = np.array([F.eq(s) for s in S]) if (eq_on and not ti["flag"]) else np.zeros(len(S))
         f_in = np.array([F.ineq(s) for s in S]) if ineq_on else np.zeros(len(S))
         if not (np.all(np.isfinite(f_eq)) and np.all(np.isfinite(f_in))):
-            ctx.truth("iterates:finite", False, key=f"{who}:{tag}:iterate-not-finite", info=info0)
+            ctx.truth("iterates:finite", False, key=K(f"{who}:{tag}:iterate-not-finite"), info=info0)
             return
         sel |= {int(np.argmax(f_eq)), int(np.argmax(f_in))}
         for i in sorted(sel):
@@ -527,6 +624,7 @@ def install(ctx):
     def post_lme(result, snap, est, qt, seq, loss, loss_option, algo, algo_option,
                  is_computation_time_required=False, is_detailed_results_required=False):
         M.cur["qt"] = None
+        M.last = None
         ti = M.info(qt)
         tag = ti["tag"]
         an, ln = algo_name(algo), loss_name(loss)
@@ -538,29 +636,31 @@ def install(ctx):
                  "max_iteration_optimization": algo_option.max_iteration_optimization}
         vs = [np.array(v, dtype=np.float64, copy=True) for v in result.estimated_var_sequence]
         if not ctx.truth("loss-minimisation:one-estimate-per-dataset", len(vs) == len(seq),
-                         key=f"{who}:{tag}:wrong-number-of-estimates", info=info0):
+                         key=K(f"{who}:{tag}:wrong-number-of-estimates"), info=info0):
             return
         if M.proj_limit_printed():
             ctx.count("loss-minimisation:inner-projection-iteration-limit-hit")
             return
         objs = result.estimated_qoperation_sequence
         drs = result.detailed_results
+        M.last = {"vars": vs, "judged": [True] * len(seq)}
         for k, ds in enumerate(seq):
             meta = M.meta_of(ds)
-            info = dict(info0, data=meta["cls"])
+            info = dict(info0, data=meta["cls"], position="first" if k == 0 else "later", n_datasets=len(seq))
             if vs[k].shape != (ti["nvar"],) or not np.all(np.isfinite(vs[k])):
-                ctx.truth("estimate:well-formed", False, key=f"{who}:{tag}:opts={oc}:estimate-not-finite-or-wrong-size", info=info)
+                M.last["judged"][k] = False
+                ctx.truth("estimate:well-formed", False, key=K(f"{who}:{tag}:opts={oc}:estimate-not-finite-or-wrong-size"), info=info)
                 continue
             s = M.stack(ti, vs[k])
             so = gen.stacked(objs[k])
             M.num("estimated_qoperation:denotes-estimated_var", float(np.max(np.abs(so - s))) / (1 + float(np.linalg.norm(s))),
-                  1e-12, 1e-9, key=f"{who}:{tag}:estimated_qoperation-differs-from-estimated_var", info=info)
+                  1e-12, 1e-9, key=K(f"{who}:{tag}:estimated_qoperation-differs-from-estimated_var"), info=info)
             M.judge_point(who, "estimate", ti, so, eq_on, ineq_on, info, "estimate")
             dr = drs[k] if drs is not None and k < len(drs) else None
             if dr is not None:
                 same = np.asarray(dr.value).shape == vs[k].shape and np.array_equal(np.asarray(dr.value, dtype=np.float64), vs[k])
                 ctx.truth("loss-minimisation:estimate-is-algorithm-value", same,
-                          key=f"{who}:{tag}:estimated_var-is-not-the-value-returned-by-optimize", info=info)
+                          key=K(f"{who}:{tag}:estimated_var-is-not-the-value-returned-by-optimize"), info=info)
             # (d) exact data => backtracking returns the object, when it stopped by its criterion
             if meta.get("truth") is None or an != "pgdb" or not (eq_on and ineq_on):
                 continue
@@ -592,14 +692,16 @@ def install(ctx):
             ctx.count(f"recovery-distance:{fam}:para_eq={pe}:{meta['kind']}:<=1e{int(math.ceil(math.log10(max(e, 1e-16))))}")
             M.num("exact-data:backtracking-recovers", e, tp, tf,
                   # mechanism key: loss family + diagnosed mechanism (flag and kind of truth are in the witness info)
-                  key=f"LossMinimizationEstimator:pgdb:{fam}:exact-data-not-recovered-at-criterion-stop:{mech}",
+                  # (the history tag stands after the loss family: the key is long and replay files are named by its first
+                  # 120 characters; the relative-entropy keys name known findings and never carry a tag)
+                  key=f"LossMinimizationEstimator:pgdb:{fam}{M.hist if fam == 'squared-error' else ''}:exact-data-not-recovered-at-criterion-stop:{mech}",
                   info=dict(info, para_eq=pe, truth_kind=meta['kind'], k=int(dr.k), fx_end=fx_end, smin=ti["smin"], last_alpha=last_alpha,
                             last_errors=[float(x) for x in dr.error_values[-3:]]))
             if fam == "squared-error" and getattr(loss_option, "mode_weight", None) == "identity":
                 # loss = |A (v - v_true)|^2 <= smax^2 dist^2 ; the truth has loss 0
                 sc = max(1.0, ti["smax"] ** 2)
                 M.num("exact-data:backtracking-loss-at-estimate", max(fx_end, 0.0) / sc, 1e-10, 1e-8,
-                      key=f"{who}:{tag}:exact-data-loss-not-minimal-at-criterion-stop:{meta['kind']}", info=dict(info, fx_end=fx_end))
+                      key=f"{who}:{tag}{M.hist}:exact-data-loss-not-minimal-at-criterion-stop:{meta['kind']}", info=dict(info, fx_end=fx_end))
 
     hs.method(LossMinimizationEstimator, "calc_estimate_sequence", pre=pre_lme, post=post_lme, on_exc=exc_lme)
     return hs, M
@@ -688,7 +790,8 @@ def born_exact(tomo, schedules, st_mats, pv_mats, t, B, d, m, s_true):
     return [np.asarray(p, dtype=np.float64) for p in out]
 
 
-def make_loss(ln, qt, weights_mode, rng, nrow, n_sched):
+def make_loss(ln, qt, weights_mode, rng, nrow, n_sched, loss=None):
+    """(loss object, option); loss: an existing (re-used) loss object of the class to be handed on instead of a new one"""
     from quara.loss_function.standard_qtomography_based_weighted_probability_based_squared_error import (
         StandardQTomographyBasedWeightedProbabilityBasedSquaredError as FSE,
         StandardQTomographyBasedWeightedProbabilityBasedSquaredErrorOption as FSEO)
@@ -711,10 +814,11 @@ def make_loss(ln, qt, weights_mode, rng, nrow, n_sched):
         opt = LO(weights=ws)
     else:
         opt = LO(weights_mode)
-    return L(qt.num_variables), opt
+    return (loss if loss is not None else L(qt.num_variables)), opt
 
 
-def make_algo(an, **kw):
+def make_algo(an, algo=None, **kw):
+    """(algorithm object, option); algo: an existing (re-used) algorithm object to be handed on instead of a new one"""
     from quara.minimization_algorithm.projected_fast_iterative_shrinkage_thresholding_algorithm import (
         ProjectedFastIterativeShrinkageThresholdingAlgorithm as FISTA, ProjectedFastIterativeShrinkageThresholdingAlgorithmOption as FISTAO)
     from quara.minimization_algorithm.projected_gradient_descent_backtracking import (
@@ -723,7 +827,7 @@ def make_algo(an, **kw):
         ProjectedGradientDescentWithMomentum as PGDM, ProjectedGradientDescentWithMomentumOption as PGDMO)
 
     A, AO = {"pgdb": (PGDB, PGDBO), "pgdm": (PGDM, PGDMO), "fista": (FISTA, FISTAO)}[an]
-    return A(), AO(**kw)
+    return (algo if algo is not None else A()), AO(**kw)
 
 
 # iteration caps of the runs that are judged for feasibility only (every iterate is promised feasible, whatever the cap)
@@ -773,11 +877,33 @@ def run_shard(ctx):
         finally:
             M.buf = None
 
+    shared = {}  # estimator / loss / algorithm objects kept for the whole shard (history step "re-use", two cases of three)
+
     try:
         for i in ctx.cases(P["n"], start=P.get("start", 0)):
-            rng = ctx.rng()
+            rng = ctx.rng()      # the base workload (identical to the one of the versions without history steps)
+            hr = ctx.rng(1)      # everything the history steps draw
             M.data.clear()
             M.phys_starts = []
+            M.hist = ""
+            M.last = None
+            # objects of this kind serve every estimate of the case; on two cases of three they are the shard's
+            pool = shared if i % 3 != 0 else {}
+
+            def obj(name, factory):
+                """(pooled object, whether it has served an estimate before)"""
+                if name in pool:
+                    ctx.count("history:re-used:" + name.split(":")[0])
+                    return pool[name], True
+                pool[name] = factory()
+                return pool[name], False
+
+            via_copy = bool(hr.random() < 0.5)
+
+            def prov(objs):
+                """provenance: testers reached through copy()"""
+                return [o.copy() for o in objs] if via_copy else objs
+
             m = 0
             if t == "Povm":
                 m = int(rng.integers(2, 5)) if shape == "S1" else int(rng.integers(2, 4))
@@ -785,9 +911,9 @@ def run_shard(ctx):
                 m = int(rng.integers(2, 4)) if shape == "S1" else 2
             eps = None if rng.random() < 0.75 else 1e-10
             st_m, pv_m, tdesc, st_full = draw_testers(d, rng)
-            states = [gen.make_state(c_sys, r) for r in st_m] if tomo != "qst" else []
-            povms = [gen.make_povm(c_sys, ms) for ms in pv_m] if tomo != "povmt" else []
-            ok, qt = ctx.attempt(build_qt, tomo, states, povms, m, flag, eps)
+            tdesc["via_copy"] = via_copy
+            ok, qt = ctx.attempt(lambda: build_qt(tomo, prov([gen.make_state(c_sys, r) for r in st_m]) if tomo != "qst" else [],
+                                                  prov([gen.make_povm(c_sys, ms) for ms in pv_m]) if tomo != "povmt" else [], m, flag, eps))
             if ok and tomo != "qst" and tdesc["n_states"] < d * (d + 1):
                 with hs.paused():
                     sv = np.linalg.svd(np.asarray(qt.calc_matA(), dtype=np.float64), compute_uv=False)
@@ -795,8 +921,8 @@ def run_shard(ctx):
                     ctx.count("reduced-state-set-not-IC:full-set-used")
                     st_m = st_full
                     tdesc["n_states"] = len(st_m)
-                    states = [gen.make_state(c_sys, r) for r in st_m]
-                    ok, qt = ctx.attempt(build_qt, tomo, states, povms, m, flag, eps)
+                    ok, qt = ctx.attempt(lambda: build_qt(tomo, prov([gen.make_state(c_sys, r) for r in st_m]),
+                                                          prov([gen.make_povm(c_sys, ms) for ms in pv_m]) if tomo != "povmt" else [], m, flag, eps))
             if not ok:
                 ctx.violation(f"{tomo}.ctor:" + ctx.exc_key(qt), {"testers": tdesc})
                 continue
@@ -818,17 +944,19 @@ def run_shard(ctx):
                 ctx.count("forward-model-differs-from-born-rule(recovery-not-judged)")
             datasets = []
 
-            def add(ds, cls, truth=None, want_nearest=True):
-                M.data[id(ds)] = (ds, {"cls": cls, "truth": truth, "kind": true_kind, "want_nearest": want_nearest})
-                datasets.append((cls, ds))
+            def add(ds, cls, truth=None, want_nearest=True, kind=None, listed=True):
+                M.data[id(ds)] = (ds, {"cls": cls, "truth": truth, "kind": kind or true_kind, "want_nearest": want_nearest})
+                if listed:
+                    datasets.append((cls, ds))
                 return ds
 
-            def few(N):
+            def few(N, ps_=None, g=None):
+                g = rng if g is None else g
                 out = []
-                for p in ps:
+                for p in (ps if ps_ is None else ps_):
                     q = np.clip(p, 0.0, None)
                     q = q / q.sum()
-                    out.append((N, rng.multinomial(N, q) / N))
+                    out.append((N, g.multinomial(N, q) / N))
                 return out
 
             ds_exact = add([(int(rng.integers(10, 10**5)), p.copy()) for p in ps], "exact:" + true_kind, truth=s_true if model_ok else None)
@@ -849,17 +977,71 @@ def run_shard(ctx):
             def register(cfg, ds):
                 meta = M.meta_of(ds)
                 lv = meta.get("lin_viol")
-                if (lv is not None and lv > 1e-9) or (meta.get("truth") is not None and true_kind == "boundary"):
+                if (lv is not None and lv > 1e-9) or (meta.get("truth") is not None and meta.get("kind") == "boundary"):
                     ctx.nontrivial(t, shape, flag, m, cfg, meta["cls"], np.hstack([np.ravel(q) for _, q in ds]))
+
+            # ------------------------------------------------------- history material (all from the stream hr)
+            other_kind = "interior" if true_kind == "boundary" else "boundary"
+            # a second exact dataset of the case's own tomography (truth of the other kind)
+            s_true2 = draw_truth(t, B, d, m, hr, other_kind)
+            ps2 = born_exact(tomo, scheds, st_m, pv_m, t, B, d, m, s_true2)
+            v_true2 = refopt.var_from_stack(t, d, m, s_true2, flag)
+            ok2_ = sum(p.size for p in ps2) == A.shape[0] and float(np.max(np.abs(np.hstack(ps2) - (A @ v_true2 + b)))) <= 1e-9
+            ds_exact2 = add([(int(hr.integers(10, 10**5)), p.copy()) for p in ps2], "exact:" + other_kind, truth=s_true2 if ok2_ else None,
+                            want_nearest=False, kind=other_kind, listed=False)
+
+            # the sibling: same type, shape, flag; other testers (full set), the other projection threshold; for POVM /
+            # measurement-process tomography in half of the cases another number of outcomes (then the estimator and
+            # algorithm objects are shared with it, the loss objects - one per number of variables - are not)
+            def build_sibling():
+                stB, pvB, tdB, stB_full = draw_testers(d, hr)
+                stB = stB_full
+                mB = m
+                m_range = {("Povm", "S1"): (2, 3, 4), ("Povm", "S3"): (2, 3), ("MProcess", "S1"): (2, 3)}.get((t, "S1" if shape == "S1" else "S3"), ())
+                if len(m_range) > 1 and hr.random() < 0.5:
+                    mB = int(hr.choice([x for x in m_range if x != m]))
+                    ctx.count("history:sibling-with-other-outcome-number")
+                qtB = build_qt(tomo, prov([gen.make_state(c_sys, r) for r in stB]) if tomo != "qst" else [],
+                               prov([gen.make_povm(c_sys, ms) for ms in pvB]) if tomo != "povmt" else [], mB, flag,
+                               1e-10 if eps is None else None)
+                with hs.paused():
+                    M.info(qtB)
+                    AB = np.asarray(qtB.calc_matA(), dtype=np.float64)
+                    bB = np.asarray(qtB.calc_vecB(), dtype=np.float64)
+                    schB = [list(map(tuple, s)) for s in qtB.experiment.schedules]
+                sB = draw_truth(t, B, d, mB, hr, other_kind)
+                psB = born_exact(tomo, schB, stB, pvB, t, B, d, mB, sB)
+                vB = refopt.var_from_stack(t, d, mB, sB, flag)
+                okB = sum(p.size for p in psB) == AB.shape[0] and float(np.max(np.abs(np.hstack(psB) - (AB @ vB + bB)))) <= 1e-9
+                exB = add([(int(hr.integers(10, 10**5)), p.copy()) for p in psB], "sibling:exact:" + other_kind, truth=sB if okB else None,
+                          want_nearest=False, kind=other_kind, listed=False)
+                nB = int(hr.choice([1, 2]))
+                fewB = add(few(nB, psB, hr), f"sibling:few-shot:N={nB}", want_nearest=False, kind=other_kind, listed=False)
+                return {"qt": qtB, "exact": exB, "few": fewB}
+
+            okS, sib = ctx.attempt(build_sibling)
+            if not okS:
+                ctx.violation(f"{tomo}.ctor:" + ctx.exc_key(sib), {"what": "sibling tomography"})
+                sib = None
+
+            def hist_of(*used):
+                return ":re-used-object" if any(used) else ""
+
+            held = []  # (who, who of the point keys, result, first-read copies, tomography, datasets, info) for the re-read step
 
             # ------------------------------------------------------- projected linear estimator
             seq = [datasets[j][1] for j in rng.permutation(len(datasets))]
+            ples = {}
             for order in ("eq_ineq", "ineq_eq"):
-                ple = ProjectedLinearEstimator(mode_proj_order=order)
+                ple, used = obj(f"ple:{order}", lambda: ProjectedLinearEstimator(mode_proj_order=order))
+                ples[order] = ple
+                M.hist = hist_of(used)
                 ok, res = run_est(ple.calc_estimate_sequence, qt, seq, is_computation_time_required=True)
                 if not ok:
-                    ctx.violation(f"ProjectedLinearEstimator:{ti['tag']}:" + ctx.exc_key(res), {"order": order})
+                    ctx.violation(M.K(f"ProjectedLinearEstimator:{ti['tag']}:" + ctx.exc_key(res)), {"order": order})
                     continue
+                if M.last is not None:
+                    held.append(("ProjectedLinearEstimator", f"ProjectedLinearEstimator:order={order}", res, M.last, qt, seq, {"order": order}))
                 for ds in seq:
                     register(f"ple:{order}", ds)
                 # the path without timing / history gives the same numbers
@@ -871,12 +1053,74 @@ def run_shard(ctx):
                         a0 = np.asarray(res.estimated_var_sequence[j], dtype=np.float64)
                     e = float(np.max(np.abs(a1 - a0))) if a1.shape == a0.shape else float("inf")
                     M.num("projected-linear:single=sequence", e, 1e-12, 1e-9,
-                          key=f"ProjectedLinearEstimator:{ti['tag']}:calc_estimate-differs-from-calc_estimate_sequence", info={"order": order})
+                          key=M.K(f"ProjectedLinearEstimator:{ti['tag']}:calc_estimate-differs-from-calc_estimate_sequence"), info={"order": order})
                 else:
-                    ctx.violation(f"ProjectedLinearEstimator:{ti['tag']}:" + ctx.exc_key(r1), {"order": order, "call": "calc_estimate"})
+                    ctx.violation(M.K(f"ProjectedLinearEstimator:{ti['tag']}:" + ctx.exc_key(r1)), {"order": order, "call": "calc_estimate"})
+
+            # history: the same estimator objects serve the sibling tomography ...
+            M.hist = ":re-used-object"
+            if sib is not None:
+                for order, ple in ples.items():
+                    sq = [sib["few"], sib["exact"]] if hr.random() < 0.5 else [sib["exact"], sib["few"]]
+                    ok, res = run_est(ple.calc_estimate_sequence, sib["qt"], sq, is_computation_time_required=bool(hr.random() < 0.5))
+                    ctx.count("history:projected-linear:sibling-tomography")
+                    if not ok:
+                        ctx.violation(M.K(f"ProjectedLinearEstimator:{ti['tag']}:" + ctx.exc_key(res)), {"order": order, "call": "sibling tomography"})
+                    else:
+                        for ds in sq:
+                            register(f"ple:{order}:sibling", ds)
+                    ok, res = run_est(ple.calc_estimate, sib["qt"], sib["exact"])
+                    if not ok:
+                        ctx.violation(M.K(f"ProjectedLinearEstimator:{ti['tag']}:" + ctx.exc_key(res)), {"order": order, "call": "sibling tomography, single"})
+            # ... bystander calls on the case's tomography object (public queries / the tomography's own sampler) ...
+            ds_lib = None
+            with hs.paused():
+                okT, true_obj = ctx.attempt(lambda: qt.generate_empty_estimation_obj_with_setting_info().generate_from_var(np.array(v_true, dtype=np.float64)))
+            if okT:
+                n_lib = int(hr.choice([1, 3, 20]))
+                ctx.attempt(qt.reset_seed, int(hr.integers(0, 2**31 - 1)))
+                ctx.attempt(qt.calc_prob_dists, true_obj)
+                okL, got = ctx.attempt(qt.generate_empi_dists, true_obj, n_lib, int(hr.integers(0, 2**31 - 1)))
+                good = okL and isinstance(got, list) and len(got) == n_sched and all(
+                    np.asarray(q).shape == (nrow,) and np.all(np.isfinite(q)) and np.all(np.asarray(q) >= 0)
+                    and abs(float(np.sum(q)) - 1.0) <= 1e-9 for _, q in got)
+                if good:
+                    ds_lib = add(got, f"library-sampled:N={n_lib}", want_nearest=not big, listed=False)
+                ctx.count("history:bystander:generate_empi_dists:" + ("used" if good else "not-usable"))
+            # ... and are then asked again about the case's own tomography through the default path (no timing / history):
+            # as many datasets as in the first call, in another order (the exact data at another position, one dataset
+            # replaced by the library-sampled one), then single calls with an exact dataset the estimator has never seen and
+            # with the case's exact data - a cache keyed by too little (tomography, number of datasets) would answer for other data
+            M.hist = ":second-call"
+            for order, ple in ples.items():
+                sq = list(seq)
+                if ds_lib is not None:
+                    cand = [j for j, ds in enumerate(sq) if ds is not ds_exact]
+                    sq[cand[int(hr.integers(0, len(cand)))]] = ds_lib
+                k0 = next(j for j, ds in enumerate(seq) if ds is ds_exact)
+                sq = [sq[j] for j in hr.permutation(len(sq))]
+                k1 = next(j for j, ds in enumerate(sq) if ds is ds_exact)
+                if k1 == k0:
+                    k2 = (k0 + 1 + int(hr.integers(0, len(sq) - 1))) % len(sq)
+                    sq[k0], sq[k2] = sq[k2], sq[k0]
+                ok, res = run_est(ple.calc_estimate_sequence, qt, sq)
+                ctx.count("history:projected-linear:second-call")
+                if not ok:
+                    ctx.violation(M.K(f"ProjectedLinearEstimator:{ti['tag']}:" + ctx.exc_key(res)), {"order": order, "call": "second call"})
+                else:
+                    for ds in sq:
+                        register(f"ple:{order}:second-call", ds)
+                # two single calls in a row with different exact data (a memo of the last call must not answer the next)
+                for ds in (ds_exact2, ds_exact):
+                    ok, res = run_est(ple.calc_estimate, qt, ds)
+                    if not ok:
+                        ctx.violation(M.K(f"ProjectedLinearEstimator:{ti['tag']}:" + ctx.exc_key(res)), {"order": order, "call": "second single call"})
+                    else:
+                        register(f"ple:{order}:second-call", ds)
+            M.hist = ""
 
             # ------------------------------------------------------- loss minimisation
-            lme = LossMinimizationEstimator()
+            lme, _ = obj("lme", LossMinimizationEstimator)
             losses = ["fse", "fre"] if (big or (shape != "S1" and i % 2 == 1)) else list(LOSSES)
             runs = []  # (algo, loss, weights, dataset, option kwargs, purpose)
 
@@ -919,6 +1163,13 @@ def run_shard(ctx):
             # physical start point / other stopping rules
             s0 = draw_truth(t, B, d, m, rng, "interior")
             v0 = np.ascontiguousarray(refopt.var_from_stack(t, d, m, s0, flag))
+            if hr.random() < 0.5:
+                # provenance: the start point is read back from a library object (vouched only when it is the same point)
+                with hs.paused():
+                    okV, v0l = ctx.attempt(lambda: qt.generate_empty_estimation_obj_with_setting_info().generate_from_var(v0.copy()).to_var())
+                if okV and isinstance(v0l, np.ndarray) and v0l.shape == v0.shape and float(np.max(np.abs(v0l - v0))) <= 1e-12:
+                    v0 = v0l
+                    ctx.count("history:start-point-read-back-from-library-object")
             M.phys_starts.append(v0)
             mode = str(rng.choice(["sum_absolute_difference_loss", "sum_absolute_difference_variable", "sum_absolute_difference_projected_gradient"]))
             runs.append((str(rng.choice(ALGOS)), str(rng.choice(["fse", "fre"])), "identity", noisy[int(rng.integers(0, len(noisy)))],
@@ -926,16 +1177,83 @@ def run_shard(ctx):
                               mode_stopping_criterion_gradient_descent=mode, num_history_stopping_criterion_gradient_descent=int(rng.integers(1, 4))),
                          "physical-start"))
 
-            for (an, ln, wm, ds, kw, purpose) in runs:
-                ok, lo = ctx.attempt(make_loss, ln, qt, wm, rng, nrow, n_sched)
-                if not ok:
-                    ctx.violation(f"loss-ctor:{ln}:" + ctx.exc_key(lo), {"weights": wm})
-                    continue
-                loss, loss_opt = lo
-                kw.setdefault("max_iteration_proj_physical", MAX_IT_PROJ)
-                algo, algo_opt = make_algo(an, **kw)
-                ok, res = run_est(lme.calc_estimate, qt, ds, loss, loss_opt, algo, algo_opt,
-                                  is_computation_time_required=True, is_detailed_results_required=True)
+            # ---- history steps woven into the list of runs (entries: dict; "seq" = datasets of one calc_estimate_sequence call)
+            plan = [dict(an=an, ln=ln, wm=wm, seq=[ds], kw=kw, purpose=purpose, qt=qt) for (an, ln, wm, ds, kw, purpose) in runs]
+            nvar = int(ti["nvar"])
+            for e in plan:
+                # options: non-default step sizes on feasibility-only runs with a squared-error loss (every iterate is a
+                # projection output / a convex combination of feasible points whatever the step is)
+                if e["purpose"] in ("weights", "physical-start") and e["ln"] in ("se", "fse") and hr.random() < 0.6:
+                    f = float(hr.choice([0.5, 2.0]))
+                    if e["an"] == "pgdb":
+                        e["kw"].update(mu=f * 3 / (2 * np.sqrt(nvar)), gamma=float(hr.choice([0.1, 0.6])))
+                    elif e["an"] == "pgdm":
+                        e["kw"].update(r=2.0 * f)
+                    else:
+                        e["kw"].update(delta=f / (10 * np.sqrt(nvar)))
+                    ctx.count("history:non-default-step-options:" + e["an"])
+            i_rec = next((j for j, e in enumerate(plan) if e["purpose"] == "recovery" and e["ln"] in ("se", "fse")), None)
+            if i_rec is not None:
+                rec = plan[i_rec]
+                if not big:
+                    # two exact datasets of different objects in one call
+                    rec["seq"] = [ds_exact, ds_exact2] if hr.random() < 0.5 else [ds_exact2, ds_exact]
+                if sib is not None:
+                    # immediately before: the same loss and backtracking objects estimate the sibling tomography
+                    plan.insert(i_rec, dict(an="pgdb", ln=rec["ln"], wm="identity", seq=[sib["few"] if hr.random() < 0.5 else sib["exact"]],
+                                            kw=dict(max_iteration_optimization=min(cap, 60), mode_proj_order=str(hr.choice(["eq_ineq", "ineq_eq"]))),
+                                            purpose="sibling", qt=sib["qt"]))
+            elif sib is not None:
+                # no recovery run in this case: the sibling is estimated (feasibility only) after the core runs
+                j_last_core = max(j for j, e in enumerate(plan) if e["purpose"] == "core")
+                plan.insert(j_last_core + 1, dict(an="pgdb", ln="fse", wm="identity", seq=[sib["few"]],
+                                                  kw=dict(max_iteration_optimization=min(cap, 60), mode_proj_order=str(hr.choice(["eq_ineq", "ineq_eq"]))),
+                                                  purpose="sibling", qt=sib["qt"]))
+            # second calls at the end of the case: one core configuration through the default path (no iterate history, no
+            # detailed results) and the squared-error recovery once more, each with the very objects of its first call
+            cores = [e for e in plan if e["purpose"] == "core"]
+            plan.append(dict(again=cores[int(hr.integers(0, len(cores)))], default_path=True, purpose="core:second-call"))
+            if i_rec is not None and not big:
+                plan.append(dict(again=rec, default_path=False, purpose="recovery:second-call"))
+
+            for e in plan:
+                first = e.get("again")
+                if first is not None:
+                    if "objs" not in first:
+                        continue  # the first call did not take place
+                    loss, loss_opt, algo, algo_opt = first["objs"]
+                    an, ln, wm, kw, qt_e = first["an"], first["ln"], first["wm"], first["kw"], first["qt"]
+                    sq = [ds_exact] if e["purpose"].startswith("recovery") else first["seq"]
+                    M.hist = ":second-call"
+                else:
+                    an, ln, wm, kw, qt_e, sq = e["an"], e["ln"], e["wm"], e["kw"], e["qt"], e["seq"]
+                    lname = f"loss:{ln}:{int(qt_e.num_variables)}"
+                    ok, lo = ctx.attempt(make_loss, ln, qt_e, wm, rng, nrow, n_sched, loss=pool.get(lname))
+                    if not ok:
+                        ctx.violation(f"loss-ctor:{ln}:" + ctx.exc_key(lo), {"weights": wm})
+                        continue
+                    loss, loss_opt = lo
+                    l_used = lname in pool
+                    pool[lname] = loss
+                    kw.setdefault("max_iteration_proj_physical", MAX_IT_PROJ)
+                    algo, algo_opt = make_algo(an, algo=pool.get(f"algo:{an}"), **kw)
+                    a_used = f"algo:{an}" in pool
+                    pool[f"algo:{an}"] = algo
+                    for nm, u in (("loss", l_used), ("algo", a_used)):
+                        if u:
+                            ctx.count("history:re-used:" + nm)
+                    e["objs"] = (loss, loss_opt, algo, algo_opt)
+                    M.hist = ":dataset-sequence" if len(sq) > 1 else hist_of(l_used, a_used)
+                purpose = e["purpose"]
+                dflt = bool(e.get("default_path"))
+                if len(sq) == 1 and dflt:
+                    ok, res = run_est(lme.calc_estimate, qt_e, sq[0], loss, loss_opt, algo, algo_opt)
+                elif len(sq) == 1:
+                    ok, res = run_est(lme.calc_estimate, qt_e, sq[0], loss, loss_opt, algo, algo_opt,
+                                      is_computation_time_required=True, is_detailed_results_required=True)
+                else:
+                    ok, res = run_est(lme.calc_estimate_sequence, qt_e, sq, loss, loss_opt, algo, algo_opt,
+                                      is_computation_time_required=not dflt, is_detailed_results_required=not dflt)
                 ctx.count(f"runs:{purpose}")
                 if not ok:
                     oc = opts_class(kw.get("on_algo_eq_constraint", True), kw.get("on_algo_ineq_constraint", True))
@@ -944,13 +1262,26 @@ def run_shard(ctx):
                         ctx.count(f"recorded:exception:opts={oc}:{type(res).__name__}@{ctx.exc_site(res)}")
                         continue
                     fam = "squared-error" if ln in ("se", "fse") else "relative-entropy"
-                    # mechanism key: loss family + raising site (algorithm and flag are in the witness info)
-                    ctx.violation(f"LossMinimizationEstimator:{fam}:" + ctx.exc_key(res),
-                                  {"algorithm": an, "para_eq": bool(flag), "type": t, "loss": ln, "weights": wm, "data": M.meta_of(ds)["cls"], "purpose": purpose,
-                                   "options": {k: v for k, v in kw.items() if k != "var_start"}, "msg": str(res)[:300]})
+                    # mechanism key: loss family + raising site (algorithm and flag are in the witness info); the
+                    # relative-entropy key names a known finding and is never suffixed
+                    ctx.violation(f"LossMinimizationEstimator:{fam}:" + ctx.exc_key(res) + (M.hist if fam == "squared-error" else ""),
+                                  {"algorithm": an, "para_eq": bool(flag), "type": t, "loss": ln, "weights": wm, "data": M.meta_of(sq[0])["cls"],
+                                   "purpose": purpose, "options": {k: v for k, v in kw.items() if k != "var_start"}, "msg": str(res)[:300]})
                     continue
-                register(f"lme:{an}:{ln}:{wm}:{purpose}:{kw.get('mode_proj_order')}:{kw.get('on_algo_eq_constraint', True)}:"
-                         f"{kw.get('on_algo_ineq_constraint', True)}", ds)
+                if purpose == "recovery" and ln in ("se", "fse") and M.last is not None:
+                    held.append((f"LossMinimizationEstimator:pgdb:{ln}", f"LossMinimizationEstimator:pgdb:{ln}", res, M.last, qt_e, sq,
+                                 {"purpose": purpose}))
+                for ds in sq:
+                    register(f"lme:{an}:{ln}:{wm}:{purpose}:{kw.get('mode_proj_order')}:{kw.get('on_algo_eq_constraint', True)}:"
+                             f"{kw.get('on_algo_ineq_constraint', True)}", ds)
+
+            # ------------------------------------------------------- history: results still held by the caller
+            M.hist = ":result-re-read"
+            for (who, who_pt, res, first, qt_h, seq_h, inf) in held:
+                with hs.paused():
+                    M.reread(who, who_pt, res, first, qt_h, seq_h, True, True, inf)
+                ctx.count("history:held-result-re-read")
+            M.hist = ""
     finally:
         hs.uninstall()
     ctx.extra["hook_counts"] = hs.counts
